@@ -168,6 +168,7 @@ func runDrvScenario(rec vlib.Recorder, s drvScenario) {
 	freq := 1 * sim.GHz
 	pageSize := uint64(1) << c.Log2Page
 	pt := vm.NewPageTable(c.Log2Page)
+	allocKindMu.RLock() // default allocator: see drvmem.go
 	drv := driver.MakeBuilder().WithEngine(engine).WithFreq(freq).WithPageTable(pt).
 		WithLog2PageSize(c.Log2Page).WithGlobalStorage(mem.NewStorage(1 << 20)).Build("Driver")
 	drvGPU := drv.GetPortByName("GPU")
@@ -242,6 +243,7 @@ func runDrvScenario(rec vlib.Recorder, s drvScenario) {
 		drv.RegisterGPU(cpPort[i], driver.DeviceProperties{CUCount: 4, DRAMSize: 1024 * pageSize})
 		drv.RemotePMCPorts = append(drv.RemotePMCPorts, pmcPort[i])
 	}
+	allocKindMu.RUnlock()
 
 	// processes and pages
 	driverInitMu.Lock()
